@@ -352,19 +352,19 @@ func (st *State) decodeRune(s []*term.Node, pos int) (*term.Node, int) {
 	c := func(v uint64) *term.Node { return b.Const(8, v) }
 	in := func(x *term.Node, lo, hi uint64) *term.Node { return b.BAnd(b.Ule(c(lo), x), b.Ule(x, c(hi))) }
 	z32 := func(x *term.Node) *term.Node { return b.ZExt(x, 32) }
-	b0 := s[pos]
+	b0 := st.sub(s[pos])
 	ascii := b.Ult(b0, c(0x80))
 	guards := []*term.Node{ascii}
 	sizes := []int{1}
 	runes := []*term.Node{z32(b0)}
 	rem := len(s) - pos
 	if rem >= 2 {
-		b1 := s[pos+1]
+		b1 := st.sub(s[pos+1])
 		g2 := b.BAnd(in(b0, 0xC2, 0xDF), in(b1, 0x80, 0xBF))
 		r2 := b.Or(b.Shl(z32(b.And(b0, c(0x1F))), b.Const(32, 6)), z32(b.And(b1, c(0x3F))))
 		guards, sizes, runes = append(guards, g2), append(sizes, 2), append(runes, r2)
 		if rem >= 3 {
-			b2 := s[pos+2]
+			b2 := st.sub(s[pos+2])
 			lead3 := b.BOr(
 				b.BAnd(b.Eq(b0, c(0xE0)), in(b1, 0xA0, 0xBF)),
 				b.BAnd(b.BOr(in(b0, 0xE1, 0xEC), in(b0, 0xEE, 0xEF)), in(b1, 0x80, 0xBF)),
@@ -373,7 +373,7 @@ func (st *State) decodeRune(s []*term.Node, pos int) (*term.Node, int) {
 			r3 := b.Or(b.Or(b.Shl(z32(b.And(b0, c(0x0F))), b.Const(32, 12)), b.Shl(z32(b.And(b1, c(0x3F))), b.Const(32, 6))), z32(b.And(b2, c(0x3F))))
 			guards, sizes, runes = append(guards, g3), append(sizes, 3), append(runes, r3)
 			if rem >= 4 {
-				b3 := s[pos+3]
+				b3 := st.sub(s[pos+3])
 				lead4 := b.BOr(
 					b.BAnd(b.Eq(b0, c(0xF0)), in(b1, 0x90, 0xBF)),
 					b.BAnd(in(b0, 0xF1, 0xF3), in(b1, 0x80, 0xBF)),
